@@ -36,19 +36,21 @@ SYMBOLS = {
     "M4": "",                                # empty string
     "M5": "CCO>>",                           # empty side
     "M6": ">>",                              # both sides empty
+    "M8": "CC(C)(C)(C)(C)C>>CC",             # well-formed text, rejected at sanitisation (valence)
+    "M9": "c1cccc1>>CC",                     # well-formed text, rejected at kekulisation
     "M7a": None,                             # missing value: None / null
     "M7b": NAN,                              # missing value: NaN
     "M7c": ABSENT,                           # missing value: key / cell absent
 }
 VALID = ("V1", "V2")
-UNSOLVABLE = ("M1", "M2", "M3", "M4", "M7a", "M7b", "M7c")   # can never be solved
+UNSOLVABLE = ("M1", "M2", "M3", "M4", "M7a", "M7b", "M7c", "M8", "M9")   # can never be solved
 
 SOURCE_SYMBOLS = {
-    "str": ["V1", "V2", "M1", "M2", "M3", "M4", "M5", "M6"],
-    "dict": ["V1", "V2", "M1", "M2", "M3", "M4", "M5", "M6", "M7a", "M7b", "M7c"],
-    "csv": ["V1", "V2", "M1", "M2", "M3", "M4", "M5", "M6", "M7c"],
-    "json": ["V1", "V2", "M1", "M2", "M3", "M4", "M5", "M6", "M7a", "M7c"],
-    "cli": ["V1", "V2", "M1", "M2", "M3", "M4", "M5", "M6"],
+    "str": ["V1", "V2", "M1", "M2", "M3", "M4", "M5", "M6", "M8", "M9"],
+    "dict": ["V1", "V2", "M1", "M2", "M3", "M4", "M5", "M6", "M8", "M9", "M7a", "M7b", "M7c"],
+    "csv": ["V1", "V2", "M1", "M2", "M3", "M4", "M5", "M6", "M8", "M9", "M7c"],
+    "json": ["V1", "V2", "M1", "M2", "M3", "M4", "M5", "M6", "M8", "M9", "M7a", "M7c"],
+    "cli": ["V1", "V2", "M1", "M2", "M3", "M4", "M5", "M6", "M8", "M9"],
 }
 
 
@@ -277,7 +279,7 @@ def run(tier, seed):
         for source in ("str", "dict", "csv", "json"):
             for seq in sequences(SOURCE_SYMBOLS[source], 2):
                 jobs.append({"source": source, "seq": list(seq)})
-        for source, sub in (("dict", ["V1", "V2", "M1", "M2", "M4", "M7a"]), ("str", ["V1", "V2", "M1", "M2", "M3", "M5"])):
+        for source, sub in (("dict", ["V1", "V2", "M1", "M2", "M8", "M7a"]), ("str", ["V1", "V2", "M1", "M9", "M3", "M5"])):
             for seq in itertools.product(sub, repeat=3):
                 jobs.append({"source": source, "seq": list(seq)})
     else:
@@ -322,8 +324,8 @@ def run(tier, seed):
     res.coverage = {
         "evaluations": n_runs + len(ref),
         "distinct_nontrivial": n_mixed,
-        "rule": "all sequences of length 1..{} over the row alphabet {{2 valid, unparsable, no '>>', reagent style, "
-                "empty string, empty side, '>>', None, NaN, absent}} (per source the values it can express; quick: length "
+        "rule": "all sequences of length 1..{} over the row alphabet {{2 valid, unparsable text, valence error, kekulisation "
+                "error, no '>>', reagent style, empty string, empty side, '>>', None, NaN, absent}} (per source the values it can express; quick: length "
                 "<= 2 complete and length 3 over a 6-symbol sub-alphabet for the in-memory sources; thorough: length <= 3 "
                 "for all sources, <= 4 for list-of-str) x batch_size "
                 "None,1..n+1 x sources list-of-str, list-of-dict, CSV Dataset, JSON Dataset; CLI (argparse entry, in "
